@@ -213,6 +213,7 @@ def run(ctx):
             else:
                 model_only.append(None)
     ctx.extra["real_calls"] = len(rows)
+    _real_storage(ctx, quick)
     ctx.extra["code_follows_transcription"] = match
     if neither:
         ctx.extra["transcription_mismatch_samples"] = neither
@@ -222,10 +223,59 @@ def run(ctx):
     ctx.extra["observation_save_returned_after_cancel_on_error_path"] = sac
     ctx.extra["stronger_reading_unexpected_errors"] = {"n": len(unexpected_err), "samples": unexpected_err[:3]}
     ctx.assumptions = [
-        "importers are recording stubs (isaacblock.DummyBlockImporter); block maps are real isaacblock.BlockMap values without items, so importBlock's item path is not exercised",
+        "stub replay: importers are recording stubs (isaacblock.DummyBlockImporter), block maps are real isaacblock.BlockMap values without items; real-storage replay: real LocalFSWriter blocks, real BlockImporter, real Center over leveldb mem storages, without faults",
         "stored(h) = Save returned nil and no CancelImport afterwards; merged(h) = the deferred function returned nil and a later merge-all call returned nil",
         "a fault is a single failing environment call for one height; an import that errors without a fault is only reported (stronger reading)",
     ]
+
+
+def _real_storage(ctx, quick):
+    """the same question asked of the real storage: real blocks written by LocalFSWriter, imported by the
+    real BlockImporter into a real Center; observable = Center.LastBlockMap()/BlockMap(h) and the imported fs."""
+    rows = []
+    for frm in ([0] if quick else [0, 3]):
+        for cnt in range(1, 7 if quick else 13):
+            for lim in range(1, 8 if quick else 14):
+                rows.append({"i": len(rows), "from": frm, "count": cnt, "limit": lim})
+    inp = os.path.join(ctx.work, "real.ndjson")
+    out = os.path.join(ctx.work, "realres.ndjson")
+    core.write_ndjson(inp, rows)
+    ctx.vh(["C15", "real", "--in", inp, "--out", out], timeout=1500)
+    res = core.read_ndjson(out)
+    if len(res) != len(rows):
+        raise core.MachineryError("real mode answered %d of %d cases" % (len(res), len(rows)))
+    nerr = 0
+    for c, r in zip(rows, res):
+        if r.get("setup_error"):
+            raise core.MachineryError("real mode set-up failed for %s: %s" % (c, r["setup_error"]))
+        b = c["from"] + c["count"] - 1
+        rng = list(range(c["from"], b + 1))
+        ctx.case(["real", c["from"], c["count"], c["limit"]], nontrivial=True)
+        ctx.traces += 1
+        key = None
+        if r.get("panic"):
+            key = "panic(real-importer)"
+        elif r["ok"]:
+            missing = sorted(set(r["missing"]) | set(r["missing_fs"]))
+            if missing or r["last_height"] != b:
+                if c["count"] % c["limit"] == 0 and missing == rng[-c["limit"]:]:
+                    key = "count%limit==0"
+                elif missing:
+                    key = "unstored(real-importer;count%%limit%s0)" % ("==" if c["count"] % c["limit"] == 0 else "!=")
+                else:
+                    key = "last-stored!=B(real-importer)"
+            elif not r["last_voteproofs_set"]:
+                key = "last-voteproofs-not-set(real-importer)"
+        else:
+            nerr += 1
+        if key:
+            ctx.violation(key, "real BlockImporter + Center: ImportBlocks(from=%d, to=%d, batchlimit=%d) %s; "
+                          "Center.LastBlockMap() height=%d, heights without BlockMap in the database %s, in the imported fs %s" % (
+                              c["from"], b, c["limit"], "panicked" if r.get("panic") else "returned nil",
+                              r["last_height"], _brief(r["missing"]), _brief(r["missing_fs"])),
+                          {"case": c, "real": r})
+    ctx.extra["real_storage_imports"] = len(rows)
+    ctx.extra["real_storage_unexpected_errors"] = nerr
 
 
 def _brief(xs):
